@@ -99,12 +99,20 @@ func c05R1(c *Ctx) {
 	valObj := identObj(info, put.Args[1])
 	okLit := false
 	detail := "second Put argument is not a local initialised with a PodResources literal"
+	// the literal: the argument itself, or the initialiser of the local that is passed
+	var lits []*ast.CompositeLit
+	if cl, ok := ast.Unparen(put.Args[1]).(*ast.CompositeLit); ok {
+		lits = append(lits, cl)
+	}
 	if valObj != nil {
 		for _, d := range varDefs(fn, valObj) {
-			cl, ok := ast.Unparen(d.rhs).(*ast.CompositeLit)
-			if !ok {
-				continue
+			if cl, ok := ast.Unparen(d.rhs).(*ast.CompositeLit); ok {
+				lits = append(lits, cl)
 			}
+		}
+	}
+	{
+		for _, cl := range lits {
 			fields := map[string]ast.Expr{}
 			for _, el := range cl.Elts {
 				if kv, ok := el.(*ast.KeyValueExpr); ok {
@@ -114,12 +122,12 @@ func c05R1(c *Ctx) {
 			req := fn.Decl.Type.Params.List[1].Names[0]
 			cidOK := false
 			if ue, ok := ast.Unparen(fields["ContainerID"]).(*ast.UnaryExpr); ok {
-				if sel, ok := ast.Unparen(ue.X).(*ast.SelectorExpr); ok && sel.Sel.Name == "K8SPodInfraContainerId" && identObj(info, sel.X) == info.Defs[req] {
+				if sel, ok := ast.Unparen(ue.X).(*ast.SelectorExpr); ok && sel.Sel.Name == "K8SPodInfraContainerId" && identObj(info, derefExpr(fn, sel.X)) == info.Defs[req] {
 					cidOK = true
 				}
 			}
 			resOK := false
-			if ro := identObj(info, fields["Resources"]); ro != nil {
+			if ro := identObj(info, derefExpr(fn, fields["Resources"])); ro != nil {
 				for _, rd := range varDefs(fn, ro) {
 					if rd.rhs != nil && strings.Contains(exprString(rd.rhs), ".ToStore()") {
 						resOK = true
